@@ -1,15 +1,83 @@
 """C02 - no configuration or exec input can crash or corrupt the calling process."""
-from runner import Q, Unit
+import dataclasses, os, re
+from runner import Q, Unit, REPO
 
-LEVEL_TEXT = ("Bounded model checking (CBMC, unwinding assertions on) of the real units one by one: memory safety, "
-              "integer/shift UB, termination within the bound and NUL-terminated results for all symbolic inputs inside the stated sizes.")
-LEVEL_NOTE = ("Trusted: CBMC 6.11 and its C semantics, the environment models in /verif/models, the bounds stated per query in the evidence. "
-              "Outside: sizes above the bounds, allocation failure, libc internals.")
-
+LEVEL_TEXT = ("Bounded model checking (CBMC: bounds, pointer, signed-overflow, shift checks, unwinding assertions = termination within "
+              "the bound) of the real units one by one, each driven from an arbitrary valid argument state: append helper, message "
+              "expansion (incl. the tag-buffer boundary), option value parsers, filter chain splitter, uid/spawn filters, cmdline/env_all "
+              "truncation arithmetic, outputs, the INI parser; plus static side-conditions between the INI line cap and the fixed "
+              "scratch buffers computed from the tree's real constants.")
+LEVEL_NOTE = ("Trusted: CBMC 6.11 and its C semantics, the environment models in /verif/models, the bounds and scaled constants stated per "
+              "query in the evidence. Outside: sizes above the bounds (the code is size-parametric; stated, not proved), allocation failure, "
+              "invalid pointers, libc internals.")
 ASSUMPTIONS = [
     "allocation failure is outside the domain (--no-malloc-may-fail)",
-    "environment models of models/vlibc.c (strstr, strtok_r, strdup with constant capacity, snprintf for the conversions used in /repo, atoi/atol saturating like strtol)",
+    "environment models of /verif/models (vlibc.c strings/format, vfs.c stdio/sockets, vsys.c identity) stand for libc and the kernel",
+    "queries imported from the harnesses of C05/C06/C07/C08/C12/C14/C15 are re-run here for their memory-safety / termination obligations",
+    "static side-conditions: a configuration value is at most INI_MAX_LINE-3 bytes (inih) and must be shorter than SNOOPY_FILTER_CHAIN_MAX_SIZE, SNOOPY_FILTER_NAME_MAX_SIZE/ARG_MAX_SIZE and the tag buffer",
 ]
+
+
+def _mod(name):
+    import importlib
+    return importlib.import_module("props." + name)
+
+
+def pre(ctx):
+    """Static side-conditions computed from the real constants of the tree."""
+    mk = open(os.path.join(REPO, "lib/inih/src/Makefile.am")).read()
+    m = re.search(r"-DINI_MAX_LINE=(\d+)", mk)
+    h = open(os.path.join(REPO, "src/snoopy.h")).read()
+    def const(n):
+        mm = re.search(r"#define\s+%s\s+(\d+)" % n, h)
+        return int(mm.group(1)) if mm else None
+    vals = {"INI_MAX_LINE": int(m.group(1)) if m else None, "CHAIN": const("SNOOPY_FILTER_CHAIN_MAX_SIZE"), "FNAME": const("SNOOPY_FILTER_NAME_MAX_SIZE"),
+            "FARG": const("SNOOPY_FILTER_ARG_MAX_SIZE"), "DSARG": const("SNOOPY_DATASOURCE_ARG_MAX_SIZE")}
+    msg = open(os.path.join(REPO, "src/message.c")).read()
+    mt = re.search(r"char\s+dataSourceTag\s*\[([^\]]+)\]", msg)
+    tag = None
+    if mt:
+        expr = mt.group(1).replace("SNOOPY_DATASOURCE_ARG_MAX_SIZE", str(vals["DSARG"] or 0))
+        if re.fullmatch(r"[\d\s+*()-]+", expr):
+            tag = eval(expr)
+    vals["TAGBUF"] = tag
+    cov = {"static_side_conditions": vals}
+    if None in vals.values():
+        return {"error": "could not read the constants for the static side-conditions: %r" % vals}
+    maxval = vals["INI_MAX_LINE"] - 3
+    bad = []
+    if not maxval < vals["CHAIN"]: bad.append("filter_chain value (%d) does not fit SNOOPY_FILTER_CHAIN_MAX_SIZE (%d)" % (maxval, vals["CHAIN"]))
+    if not maxval < vals["FNAME"]: bad.append("filter name (%d) does not fit SNOOPY_FILTER_NAME_MAX_SIZE (%d)" % (maxval, vals["FNAME"]))
+    ctx["log"]("  [static] INI value <= %d bytes; chain buffer %d, filter name %d / arg %d, data source arg %d, tag buffer %d" % (
+        maxval, vals["CHAIN"], vals["FNAME"], vals["FARG"], vals["DSARG"], vals["TAGBUF"]))
+    viol = []
+    if bad:
+        import time
+        from runner import VERIF
+        rdir = os.path.join(VERIF, "replays", "C02_static_%s" % time.strftime("%Y%m%d-%H%M%S"))
+        os.makedirs(rdir, exist_ok=True)
+        open(os.path.join(rdir, "report.txt"), "w").write("\n".join(bad) + "\nconstants: %r\n" % vals)
+        viol.append({"path": rdir, "how": bad[0]})
+    return {"coverage": cov, "violations": viol}
+
+
+def _take(modname, pattern, ctx, prefix):
+    out = []
+    sub = dict(ctx)
+    sub["kf"] = []
+    import runner
+    sub["kf"] = runner.finding_keys(modname)
+    for q in _mod(modname).queries(sub):
+        if re.search(pattern, q.name) and q.expect == "pass":
+            out.append(dataclasses.replace(q, name="%s_%s" % (prefix, q.name)))
+    return out
+
+
+def inih_query(tail, timeout=900):
+    return Q(name="inih_tail%d" % tail, harness="C02_inih.c", units=[Unit("lib/inih/src/ini.c", extra_flags=("-UINI_MAX_LINE", "-DINI_MAX_LINE=32", "-UINI_INITIAL_ALLOC", "-DINI_INITIAL_ALLOC=32"))],
+             models=("vlibc.c",), defines=("TAIL=%d" % tail, "LINECAP=32"), unwind=tail + 12,
+             unwindset=("snoopy_ini_parse_stream.0:%d" % (tail + 3), "strncpy0.0:52", "harness.0:12", "harness.2:12"), flags=("--object-bits", "10"), timeout=timeout, mem_gb=8,
+             bounds="file = '[snoopy]\\n' + %d arbitrary bytes; INI_MAX_LINE scaled 1024 -> 32 (inih is parametric in it; CBMC array threshold)" % tail)
 
 
 def queries(ctx):
@@ -19,4 +87,19 @@ def queries(ctx):
     qs.append(Q(name="string_append", harness="C02_string.c", units=["src/util/string.c"],
                 defines=("BUFMAX=%d" % bm,), unwind=bm + 4, timeout=300, mem_gb=2,
                 bounds="destination buffer size 1..%d (symbolic), both strings arbitrary bytes up to %d long" % (bm, bm + 1)))
+    qs += _take("C05", r"sym_F5_L6|tagbuf" if not thorough else r"sym_|tagbuf|tmpl", ctx, "message")
+    qs += _take("C08", r"output_text|syslog_text|bytelen_garbage|bool" if not thorough else r".", ctx, "option")
+    qs += _take("C07", r"symbolic" if not thorough else r".", ctx, "chain")
+    qs += _take("C06", r"join_NTS_buf(2|7)$" if not thorough else r".", ctx, "cmdline")
+    qs += _take("C12", r"env_all|ds_env$|ds_login|ds_hostname|ds_tty$|ds_cwd" if not thorough else r".", ctx, "source")
+    for bs in ((9, 12, 16) if not thorough else (6, 7, 9, 10, 12, 14, 16, 20)):
+        base = [q for q in _mod("C12").queries(ctx) if q.name == "ds_env_all"][0]
+        qs.append(dataclasses.replace(base, name="source_env_all_trunc_buf%d" % bs, defines=tuple(base.defines) + ("BUFSZ=%d" % bs,),
+                                      bounds="env_all with a %d-byte result buffer and two entries of up to 7 bytes: every truncation position" % bs))
+    if thorough:
+        qs += _take("C14", r".", ctx, "uidfilter")
+        qs += _take("C15", r".", ctx, "spawns")
+        qs += _take("C04", r"out_(devlog|socket|file)", ctx, "output")
+        qs.append(inih_query(5, timeout=3000))
+    qs.append(inih_query(3))
     return qs
